@@ -195,7 +195,7 @@ DEFAULT_PROFILE = dict(
     dip_spellings=True, result_dip=False, keyword_params=True, nested_structs=True,
     max_params=5, cb_struct_args=True, opt_slices=True, char=False, ordering=True,
     mut_self=True, opt_mut_oref=True, namespaces=False, byte_slices=True, renames=False,
-    strs_utf8=False, result_prim_err=True, opt_owned=False, write_prob=0.18, cb_opt=True, cb_slices=True, cb_strs=True, cb_aggr_ret=True, traits=False, trait_prob=0.5, held_callbacks=False, self_spelling=True, opt_strs=True, cb_orefs=False, opt_slice_fields=False, trait_method_disable=0.0, dip_params=0.2, impl_split=0.25,
+    strs_utf8=False, result_prim_err=True, opt_owned=False, write_prob=0.18, cb_opt=True, cb_slices=True, cb_strs=True, cb_aggr_ret=True, traits=False, trait_prob=0.5, held_callbacks=False, self_spelling=True, opt_strs=True, cb_orefs=False, opt_slice_fields=False, trait_method_disable=0.0, dip_params=0.2, impl_split=0.25, multi_cb=False,
 )
 
 
@@ -388,8 +388,8 @@ class Gen:
             return ("opt", ("strs", self.pick(["ustr", "u16"])), "std")      # optional arrays of strings (present-but-empty must stay present)
         if p.get("utf8_bias") and p["utf8"] and self.chance(0.35):
             return ("str", "utf8", None, "std")       # several validated strings per method (each must be checked on its own)
-        if p.get("cb_bias") and p["callbacks"] and not ctx.get("has_cb") and self.chance(p["cb_bias"]):
-            ctx["has_cb"] = True                      # a callback early in the list: later parameters are converted / validated after it
+        if p.get("cb_bias") and p["callbacks"] and (not ctx.get("has_cb") or (p.get("multi_cb") and ctx.get("has_cb") == 1)) and self.chance(p["cb_bias"]):
+            ctx["has_cb"] = int(ctx.get("has_cb") or 0) + 1                   # a callback early in the list: later parameters are converted / validated after it
             return ("cb", [self.cb_arg() for _ in range(self.ri(0, 3))], self.cb_ret(), self.chance(0.4))
         c = self.r.random()
         if c < 0.30:
@@ -437,8 +437,8 @@ class Gen:
                 return ("prim", self.pick(self.prims()))
             sp = "dip" if (p["dip_spellings"] and inner[0] in ("prim", "enum", "struct") and self.chance(0.4)) else "std"
             return ("opt", inner, sp)
-        if p["callbacks"] and not ctx.get("has_cb") and self.chance(0.6):
-            ctx["has_cb"] = True
+        if p["callbacks"] and (not ctx.get("has_cb") or (p.get("multi_cb") and ctx.get("has_cb") == 1 and self.chance(0.7))) and self.chance(0.6):
+            ctx["has_cb"] = int(ctx.get("has_cb") or 0) + 1          # (a second callback per method where the profile allows it)
             args = [self.cb_arg() for _ in range(self.ri(0, 3))]
             return ("cb", args, self.cb_ret(), self.chance(0.4))
         return ("prim", self.pick(self.prims()))
